@@ -389,7 +389,7 @@ func c05Run(c *Ctx) {
 }
 
 func init() {
-	addCheck(&Check{ID: "C05", Level: "model_checking",
+	addCheck(&Check{Flows: []flowOracle{flowRotation}, ID: "C05", Level: "model_checking",
 		Rule:     "every configured backend list of 1-4 entries over 6 backend URLs (the same host:port over UDP and TCP, two URLs differing only in the port, one backend given by host name) started from YAML and probed with 2k+1 dispatches; explicit-state BFS to a FIXPOINT over the real RoundRobinBackend inside a running proxy: events add(a)/remove(a)/dispatch over 4 (thorough 5) udp and 3 (thorough 5) tcp backend addresses (one tcp backend is registered under a host name with capital letters, resolved by the simulated DNS); state = ordered backend list x cursor x map keys x proxy index; every reachable state is followed by a probe of 2k+1 consecutive dispatches; non-trivial = history longer than one event",
 		Assume:   []string{"the fixpoint covers operation sequences of any length over the address universe (finite reachable state space); concurrency half: see C05 race tier"},
 		Run:      c05Run,
